@@ -212,7 +212,11 @@ def run_shard(H: Harness) -> None:
     H.phase_info["small_scope_cases"] = n
     H.phase_info["exhaustive"] = True
     H.phase_info["exhaustive_scope"] = "all 64 edge sets on 4 ordered nodes x priorities {-1,0,1,2}^4"
-    # phase 2: random shapes
+    # phase 2: random shapes (reconfiguration, selections, hash-seed workers); at least 40% of the budget even if the
+    # enumeration was slow on a loaded machine
+    import time as _time
+
+    H.deadline = max(H.deadline, _time.monotonic() + 0.4 * (H.deadline - H.t0))
     H.run_hypothesis(strategy)
     _kill_workers()
 
